@@ -54,23 +54,30 @@ end
 theorem localTr_single (sl : Loc) (env : Env) (names : List (Bytes × Loc × Nat)) (exps : List Exp)
     (hlen : exps.length ≤ 1) (hrec : bExps true env exps = bExps false env exps) :
     bLocalTr true sl env names exps =
-      (bExps false env exps ++ names.map (fun (n, l, _) => declOcc n l sl), pushNames env names) := by
+      (bExps false env exps ++ localDecls sl names exps, pushNames env names) := by
+  have hnone : ∀ (ns : List (Bytes × Loc × Nat)),
+      localDecls sl ns [] = ns.map (fun (n, l, _) => declOcc n l sl) := by
+    intro ns
+    induction ns with
+    | nil => rfl
+    | cons a r ih => obtain ⟨n, l, c⟩ := a; simp [localDecls, ih]
   match exps, names with
-  | [], ns => simp [bLocalTr, bExps]
+  | [], ns => simp [bLocalTr, bExps, hnone]
   | [e], [] =>
     simp only [bExps, List.append_nil] at hrec
-    simp [bLocalTr, bExps, pushNames, hrec]
+    simp [bLocalTr, bExps, pushNames, hrec, localDecls]
   | [e], (n, l, k) :: ns =>
     simp only [bExps, List.append_nil] at hrec
-    simp [bLocalTr, bExps, pushNames, hrec]
+    simp [bLocalTr, bExps, pushNames, hrec, localDecls, hnone]
   | _ :: _ :: _, _ => simp at hlen
 
 /-- assignment targets depend on the variant only through their sub-expressions -/
-theorem targets_congr (env : Env) : (vs : List Exp) → (∀ v ∈ vs, bExp true env v = bExp false env v) →
-    bTargets true env vs = bTargets false env vs
-  | [], _ => by simp [bTargets]
-  | v :: r, h => by
-    have hr := targets_congr env r (fun x hx => h x (by simp [hx]))
+theorem targets_congr (env : Env) (exps : List Exp) : (i : Nat) → (vs : List Exp) →
+    (∀ v ∈ vs, bExp true env v = bExp false env v) →
+    bTargets true env exps i vs = bTargets false env exps i vs
+  | _, [], _ => by simp [bTargets]
+  | i, v :: r, h => by
+    have hr := targets_congr env exps (i + 1) r (fun x hx => h x (by simp [hx]))
     have hv := h v (by simp)
     cases v <;> simp_all [bTargets]
 
@@ -156,7 +163,7 @@ theorem tStat : (s : Stat) → (env : Env) → okStat s = true → bStat true en
   | .forin ns es b _, env, h => by
     simp only [okStat, Bool.and_eq_true] at h; simp [bStat, tExps es env h.1, tBlock b _ h.2]
   | .assign vars exps _, env, h => by
-    simp only [okStat, Bool.and_eq_true] at h; simp [bStat, tExps exps env h.2, targets_congr env vars (tAll vars env h.1)]
+    simp only [okStat, Bool.and_eq_true] at h; simp [bStat, tExps exps env h.2, targets_congr env exps 0 vars (tAll vars env h.1)]
   | .local_ names exps sl, env, h => by
     simp only [okStat, Bool.and_eq_true, decide_eq_true_eq] at h
     simp only [bStat, if_true, Bool.false_eq_true, if_false]
@@ -165,6 +172,17 @@ theorem tStat : (s : Stat) → (env : Env) → okStat s = true → bStat true en
   | .callstat e, env, h => by simp only [okStat] at h; simp [bStat, tExp e env h]
 termination_by x => sizeOf x
 end
+
+#print axioms localTr_single
+#print axioms targets_congr
+#print axioms tExp
+#print axioms tExps
+#print axioms tFunc
+#print axioms tBlock
+#print axioms tStats
+#print axioms tBlocks
+#print axioms tAll
+#print axioms tStat
 
 /-- **The traversal binder is Lua's binder** on every chunk whose `local` statements have at most
     one initialiser (any nesting, any shadowing). -/
